@@ -23,10 +23,10 @@ RULE = (
 )
 ASSUMPTIONS = [
     "labels and names in the generated files are trimmed (the library documents that it normalises surrounding whitespace) and contain no CR",
-    "JSON files are UTF-8 without BOM (RFC 8259)",
+    "JSON files are UTF-8 without BOM (RFC 8259) or BOM-marked UTF-16 (which the reader's encoding detection covers)",
     "Python's 'utf-16' codec needs the BOM the statement requires",
 ]
-REQUIRED_CLASSES = ["reader:utf-16", "reader:crlf", "reader:elan", "reader:exp_numbers", "reader:neg_zero",
+REQUIRED_CLASSES = ["reader:utf-16-json", "reader:utf-16", "reader:crlf", "reader:elan", "reader:exp_numbers", "reader:neg_zero",
                     "reader:duplicate_renamed", "reader:duplicate_error", "reader:blank_removed"]
 
 LAYOUTS = ["long", "elan", "short", "json", "textgrid_json"]
@@ -96,7 +96,9 @@ def run_case(case):
     enc, crlf = case["enc"], case["crlf"]
     ie, dup = case["include_empty"], case["dup_mode"]
     if layout in ("json", "textgrid_json"):
-        enc, crlf = "utf-8", False
+        crlf = False
+        if enc == "utf-8-sig":
+            enc = "utf-8"  # RFC 8259: a JSON text must not start with a UTF-8 byte order mark
     status = expected(data, layout, ie, dup)
     if status[0] == "skip":
         return {"classes": ["skip_json_duplicate_keys"], "nontrivial": False}
@@ -131,9 +133,20 @@ def run_case(case):
         iomodel.compare_data(got, want, what, exact=True)
     except Violation as v:
         raise Violation(f"{v.clause}:{layout}", v.message)
+    # every tier obtained by opening a file is well-formed (C05's "from opening a file")
+    from vlib import models
+    from vlib.pio import snap_tier
+
+    for t in tg.tiers:
+        models.check_wellformed(snap_tier(t), f"{what}: tier {t.name!r}")
+        with quiet():
+            if t.validate("silence") is not True:
+                raise Violation(f"opened-tier-invalid:{layout}", f"{what}: tier {t.name!r} does not validate")
     # classes
     if enc.startswith("utf-16"):
         cl.add("utf-16")
+        if layout in ("json", "textgrid_json"):
+            cl.add("utf-16-json")
     if enc == "utf-8-sig":
         cl.add("utf-8-sig")
     if crlf:
